@@ -20,7 +20,8 @@ Every exclusion is justified below by a witness on the model (section "Why each 
   `known_progressbar_in_group_overflows`), nor does a text with `end=""` (`excluded_open_member_in_group`);
 * table — any number of columns, also none; ratio columns included: columns free to wrap exactly as the statement says: no `width`
   (`excluded_fixed_width_column`), no `min_width` (`excluded_min_width_column`), no `no_wrap` (`excluded_no_wrap_column`); in an
-  expanding table no `ratio=0` column (finding `table-ratio-zero-column`: `finding_ratio_zero_column_overflows`);
+  expanding table every ratio is allowed on the code with the repaired flexible-width clamp (fix 75c2776), and no `ratio=0` column
+  on the code before it (finding `table-ratio-zero-column`, found by this check: `old_ratio_zero_column_overflows`);
 * `Columns(width=…)`: `excluded_columns_width_zero` shows the bound failing for `width=0`; for `width ≥ 1` no counterexample is known
   (evaluated directly on rich in every run) — NOT DISCHARGED: it needs the bound of `_calculate_column_widths` for fixed-width columns;
 * `Constrain` / `Align` render their child at a narrower width, which `Dom` asks to be at or above the child's structural minimum, and an
@@ -113,20 +114,36 @@ theorem known_progressbar_in_group_overflows :
 /-- the same two renderables the other way round are inside the domain and fit -/
 example : widthsOf (.group true [wText "ccc dd", wBar]) 9 = [6, 5] := by decide +kernel
 
-/-! ## The finding `table-ratio-zero-column` -/
+/-! ## The finding `table-ratio-zero-column` (found by this check, repaired by fix 75c2776) -/
 
 def wRatioZero : R :=
   .table { box := some 15, expand := true }
     [.mk { ratio := some 1 } (wText "a") (wText "") [wText "x"], .mk { ratio := some 0 } (wText "b") (wText "") [wText "y"],
      .mk {} (wText "c") (wText "") [wText "long long long long long long long long text"]]
 
-/-- `Table(expand=True)` with columns `ratio=1`, `ratio=0` and an ordinary wide one: the `ratio=0` column is handed 0 cells
-(`max(0, width)`), the wide column is collapsed until the widths sum to the budget, and the re-measure then gives the 0-cell column one
-cell (`maximum or 1`): every line is ONE CELL TOO WIDE, at its structural minimum 13 and at every width at which the wide column still
-has to wrap (here also at 30).  Genuine defect of rich (all columns are free to wrap); repair: pending_fixes/C01-table-ratio-zero-column.diff. -/
-theorem finding_ratio_zero_column_overflows :
-    smin cwR wRatioZero = 13 ∧ (widthsOf wRatioZero 13).all (· == 14) = true ∧ (widthsOf wRatioZero 30).all (· == 31) = true := by
+/-- the code before fix 75c2776: flexible widths clamped with `max(0, width)` -/
+def clampZeroCfg : Cfg := { nowCfg with fl := { Flags.allRepaired with flexClampZero := true } }
+
+/-- Before the fix, `Table(expand=True)` with columns `ratio=1`, `ratio=0` and an ordinary wide one: the `ratio=0` column is handed 0
+cells (`max(0, width)`), the wide column is collapsed until the widths sum to the budget, and the re-measure then gives the 0-cell column
+one cell (`maximum or 1`): every line is ONE CELL TOO WIDE, at its structural minimum 13 and at every width at which the wide column
+still has to wrap (here also at 30) — although all columns are free to wrap.  (`Dom` excludes `ratio=0` columns of expanding tables for
+this variant only.) -/
+theorem old_ratio_zero_column_overflows :
+    smin cwR wRatioZero = 13 ∧
+    ((renderedLines clampZeroCfg wRatioZero {} 13).map (lineLength cwR)).all (· == 14) = true ∧
+    ((renderedLines clampZeroCfg wRatioZero {} 30).map (lineLength cwR)).all (· == 31) = true := by
   decide +kernel
+
+/-- the repaired code (`max(minimum, width)`): the same table is in the domain (`render_fits` applies) and is exactly as wide as asked -/
+example : Dom nowCfg wRatioZero {} 13 := by
+  rw [wRatioZero, Dom]
+  refine ⟨trivial, trivial, ?_, ?_⟩
+  · intro c hc
+    simp only [List.mem_cons, List.not_mem_nil, or_false] at hc
+    rcases hc with rfl | rfl | rfl <;> exact ⟨⟨rfl, rfl, rfl⟩, Or.inl ⟨rfl, rfl⟩⟩
+  · intro tw h; cases h
+example : (widthsOf wRatioZero 13).all (· == 13) = true ∧ (widthsOf wRatioZero 30).all (· == 30) = true := by decide +kernel
 
 /-! ## Why each exclusion of `Dom` is there: the bound really fails -/
 
